@@ -500,8 +500,30 @@ func c18TracingKeys(p *core.Prog, r *core.Report) {
 	}
 }
 
+// c18HTTPBuffer: the HTTP codec serialises arg2 into a fixed buffer whose
+// overflow is a sticky error nobody consults before the bytes are flushed, so
+// the buffer's size is the codec's limit: it is the documented constant (at
+// least 10000 bytes), never a per-message estimate that can fall short of
+// what writeHeaders emits (a name per value).
+func c18HTTPBuffer(p *core.Prog, r *core.Report) {
+	n := 0
+	for _, cs := range p.CallsTo("typed.NewWriteBufferWithSize") {
+		if !p.InAnalysed(cs.Fn) || !strings.HasSuffix(pkgOf(cs.Fn), "/http") {
+			continue
+		}
+		n++
+		k, isK := core.ConstInt(core.CallArgs(cs.Call)[0])
+		r.Check(isK && k >= 10000, "C18-R2", fname(cs.Fn), "arg2 buffer of the documented fixed size", p.Pos(cs.Call.Pos()), fmt.Sprintf("constant %d", k),
+			"the arg2 buffer is sized by "+desc(core.CallArgs(cs.Call)[0])+" instead of the documented constant: when the estimate is short the buffer's sticky error is never consulted and a truncated arg2 is sent")
+	}
+	if n < 2 {
+		r.Errorf("expected the HTTP request and response writers to allocate an arg2 buffer, found %d sites", n)
+	}
+}
+
 func c18Plumbing(p *core.Prog, r *core.Report) {
 	c18RetryState(p, r)
+	c18HTTPBuffer(p, r)
 	c18TracingKeys(p, r)
 	through := map[string]int{"InjectOutboundSpan": 1}
 	isCtxHeaders := func(v ssa.Value) bool {
@@ -568,7 +590,19 @@ func c18Plumbing(p *core.Prog, r *core.Report) {
 				return false
 			}
 			rv := core.ReturnValues(ret)
-			return core.IsNilConst(rv[len(rv)-1])
+			e := rv[len(rv)-1]
+			if core.IsNilConst(e) {
+				return true
+			}
+			// an error value that is not known to be non-nil here (returned
+			// on a path that was not taken because of err != nil) may be nil
+			if core.NeverNil(e, 0) || factsAt(i.Block()).nilCmp(func(v ssa.Value) bool { return v == e }, false) {
+				return false
+			}
+			if _, isPhi := e.(*ssa.Phi); isPhi {
+				return false // merged error values: judged on their own returns
+			}
+			return true
 		}
 		res := core.ReachAvoiding(f, nil, isNilRet, func(i ssa.Instruction) bool {
 			_, is := core.IsCall(i, "ContextWithHeaders.SetResponseHeaders")
